@@ -20,7 +20,7 @@ META = {
         "graph invariants read the private pointer lists of CircuitGraphBranch (hook at the mutator, not an API observation)",
     ],
     "floors": {
-        "quick": {"late_add_listings": 2500, "dangling_relation_adds": 8000, "late_add_through_nested_handle": 500, "listings_checked": 4000, "graph_invariant": 30000, "add_to_graph_post": 30000, "causality_pairs": 20000, "blocks_contiguity": 1500, "chain_length": 5000, "chains_at_depth_limit": 1},
+        "quick": {"unrolled_nested_listings_compared": 2500, "late_add_listings": 2500, "dangling_relation_adds": 8000, "late_add_through_nested_handle": 500, "listings_checked": 4000, "graph_invariant": 30000, "add_to_graph_post": 30000, "causality_pairs": 20000, "blocks_contiguity": 1500, "chain_length": 5000, "chains_at_depth_limit": 1},
         "thorough": {"listings_checked": 40000, "graph_invariant": 300000, "causality_pairs": 200000, "blocks_contiguity": 15000},
     },
 }
@@ -224,6 +224,20 @@ def check_program(prog: Dict[str, Any], acc: Acc, flags=None):
         sub = Acc()
         check_listing(built2, sub, case, "unrolled", circuit=modified, level_model=unrolled_model)
         acc.merge_counts(sub.counters)
+        # a circuit nested into another one is expanded in place IN ITS OWN ORDER: the unrolled circuit (group relations between the copies)
+        # nested into an empty circuit lists the same operation sequence as it lists itself (seeded change C02-r12: a copied group relation
+        # kept only its latest-ending members and the copy was placed - and listed - earlier)
+        own = [snap.op_sig(o) for o in modified.operations]
+        if 0 < len(own) <= 300:
+            from qce_circuit.language.declarative_circuit import DeclarativeCircuit
+            outer = DeclarativeCircuit()
+            outer.add(modified)
+            nested = [snap.op_sig(o) for o in outer.operations]
+            acc.count("unrolled_nested_listings_compared")
+            if nested != own:
+                k = next((i for i, (a, b) in enumerate(zip(nested, own)) if a != b), min(len(nested), len(own)))
+                acc.finding("listing/nested-order", "an unrolled circuit nested into an empty circuit is not listed in its own order", case,
+                            {"first_difference_at": k, "len_nested": len(nested), "len_own": len(own)})
         flip = ustats.get("unroll_flip", 0) > 0
         if flip:
             acc.count("programs_with_unroll_flip")
